@@ -10,6 +10,14 @@ C01 — every voltage step is the exact solution of the discretised cable equati
    Schur pivots of the path (`thomas_triang_pivots`), padding rows are irrelevant (`padding_irrelevant`), triangulation + back
    substitution solves the tridiagonal system of a slot (`thomas_slot_solves`), every branch-point step is a solution-set
    preserving row operation (`bp_*_row`)
+6. the WHOLE custom solver, for every schedule (`custom_solver_correct`, `custom_solver_unique`): for every well-formed indexer +
+   level schedule (any number of levels, any branching, any padding; `wfB`, a decidable structural predicate that the driver
+   evaluates on every schedule captured from the real code) and every array content whose pivots do not vanish (`PivOK`,
+   decided by `pivOkB`, also evaluated per case), `Model.SolveJaxley.solve` returns a solution of the system its ten input arrays
+   denote (`Sat`), and that solution is the only one; for cable-like arrays (`Dominant`: strictly row-dominant Z-rows for the
+   compartments, weighted Kirchhoff rows with positive weights for the branch points — what `step_voltage_implicit_with_jaxley_spsolve`
+   assembles in exact arithmetic) the pivot hypothesis is a THEOREM (`custom_solver_pivots_of_dominant`), so the solver is correct
+   unconditionally (`custom_solver_correct_cable`)
 The code-shaped assembly `Model.Cable.assemble` is tied to the implementation by the correspondence harness, and its
 exact rational solution is checked against `Spec.Cable` with residual exactly 0 on every generated case.
 -/
@@ -18,6 +26,8 @@ import JaxleyVerif.Lemmas.RealInst
 import JaxleyVerif.Lemmas.HinesPivots
 import JaxleyVerif.Lemmas.MaxPrinciple
 import JaxleyVerif.Lemmas.SolveJaxley
+import JaxleyVerif.Lemmas.SolveJaxleyGlobal
+import JaxleyVerif.Lemmas.SolveJaxleyDominant
 import JaxleyVerif.Gen.Kernels
 import JaxleyVerif.Spec.Cable
 import Mathlib.Tactic.Positivity
@@ -176,6 +186,55 @@ example : (backsubSlot (triangSlot (K := ℚ) ⟨fun i => if i = 0 then 2 else 3
     fun _ => 0, fun _ => 0, fun _ => 0, fun _ => 0, fun _ => 0, fun _ => 0⟩ 0 1) 0 1).solves 0 = 4 / 5 := by
   norm_num [backsubSlot, triangSlot, triangMid, backMid, upd]
 end solver
+
+
+/-! ## 6. the whole custom solver over an arbitrary level schedule -/
+
+section global
+open JaxleyVerif.Model.SolveJaxley
+variable {K : Type} [Field K]
+
+/-- **Correctness of `_triang_branched` + `_backsub_branched` as modelled, for every schedule**: if indexer and schedule are
+structurally well formed (`wfB`: disjoint non-empty slots, every branch once, every branch point with one parent, children and
+parents of a level meeting at the same branch points, parents of a level among the children of the previous one) and no divisor
+met by the elimination vanishes, the returned arrays satisfy every row — compartment rows of every (padded) slot and branch-point
+rows — of the system denoted by the INPUT arrays. -/
+theorem custom_solver_correct (ix : Idx) (sc : Sched) (st : St K) (hwf : wfB ix sc = true) (hp : PivOK ix sc st) :
+    Sat ix sc st (solve ix sc st).solves (fun p => (solve ix sc st).bpSolves p / (solve ix sc st).bpDiags p) :=
+  solve_correct ix sc st hwf hp
+
+/-- … and it is the only solution: any `(x, z)` satisfying the input system agrees with the output on every cell of every slot
+and on every branch point -/
+theorem custom_solver_unique (ix : Idx) (sc : Sched) (st : St K) (hwf : wfB ix sc = true) (hp : PivOK ix sc st)
+    (x z : Nat → K) (hs : Sat ix sc st x z) :
+    (∀ b ∈ branchesOf sc, ∀ i, ix.first b ≤ i → i ≤ ix.paddedLast b → x i = (solve ix sc st).solves i) ∧
+    (∀ q ∈ pairsP sc, z q.2 = (solve ix sc st).bpSolves q.2 / (solve ix sc st).bpDiags q.2) :=
+  solve_unique ix sc st hwf hp x z hs
+
+/-- the Boolean the driver prints as `piv=` decides the pivot hypothesis -/
+theorem pivot_check_sound [DecidableEq K] (ix : Idx) (sc : Sched) (st : St K) : pivOkB ix sc st = true ↔ PivOK ix sc st :=
+  pivOkB_iff ix sc st
+
+/-- non-vacuity: one root branch (2 cells), one branch point, two children with slots of different padded size -/
+example : ∃ (ix : Idx) (sc : Sched) (st : St ℚ), wfB ix sc = true ∧ PivOK ix sc st := ⟨exIx, exSc, exSt, ex_wf, ex_piv⟩
+end global
+
+section dominant
+open JaxleyVerif.Model.SolveJaxley
+variable {K : Type} [Field K] [LinearOrder K] [IsStrictOrderedRing K]
+
+/-- for cable-like arrays (positive diagonals dominating non-positive couplings in every compartment row, branch-point rows
+`−(Σ w) z + Σ w_i x_i` with positive weights) no divisor of the elimination vanishes, whatever the schedule -/
+theorem custom_solver_pivots_of_dominant (ix : Idx) (sc : Sched) (st : St K) (hwf : wfB ix sc = true) (hd : Dominant ix sc st) :
+    PivOK ix sc st := pivOK_of_dominant ix sc st hwf hd
+
+/-- hence the custom solver solves every cable-like system on every well-formed schedule -/
+theorem custom_solver_correct_cable (ix : Idx) (sc : Sched) (st : St K) (hwf : wfB ix sc = true) (hd : Dominant ix sc st) :
+    Sat ix sc st (solve ix sc st).solves (fun p => (solve ix sc st).bpSolves p / (solve ix sc st).bpDiags p) :=
+  solve_correct_of_dominant ix sc st hwf hd
+
+example : ∃ (ix : Idx) (sc : Sched) (st : St ℚ), wfB ix sc = true ∧ Dominant ix sc st := ⟨exIx, exSc, exStD, ex_wf, ex_dominant⟩
+end dominant
 
 /-! ## non-vacuity -/
 example : compute_coupling_cond (1:ℝ) 1 100 100 10 10 / 1
